@@ -440,7 +440,7 @@ def run(rep, tier, seed):
         try: neg["r"] = negative_controls([r for r in sel if not r[2].get("rec")][:400])
         except Exception as ex: neg["e"] = ex
     nth = threading.Thread(target=negjob); nth.start()
-    nev, nruns, rej = validate_traces(sel, tier, nproc=8 if tier == "quick" else 14)
+    nev, nruns, rej = validate_traces(sel, tier, nproc=4 if tier == "quick" else 14)
     nth.join()
     if "e" in neg: raise neg["e"]
     passed, tried = neg["r"]
